@@ -1,7 +1,7 @@
 (* C08 property theorems (verified checker): the critical-path graph is a forward-in-time DAG with typed, non-negative edges. *)
 From HTA.lib Require Import Base Dag.
-From HTA.model Require Import C08_Model C08_Host.
-From HTA.proof Require Import C08_Proofs C08_HostProofs.
+From HTA.model Require Import C08_Model C08_Host C08_Dev.
+From HTA.proof Require Import C08_Proofs C08_HostProofs C08_DevProofs.
 Open Scope Z_scope.
 
 Theorem C08_edges_forward_nonneg : forall zw clipped N E e, edge_ok zw clipped N E e = true ->
@@ -22,7 +22,7 @@ Print Assumptions C08_weight_rule.
 Theorem C08_type_discipline : forall zw clipped N E e, edge_ok zw clipped N E e = true ->
   exists nu nv eu ev_, find_node N (g_u e) = Some nu /\ find_node N (g_v e) = Some nv /\
     find_ev clipped (c_ev nu) = Some eu /\ find_ev clipped (c_ev nv) = Some ev_ /\
-    (g_ty e = 2 -> c_start nu = true /\ c_start nv = true /\ is_dev_ev eu = false /\ is_dev_ev ev_ = true /\ icorr ev_ = idx eu) /\
+    (g_ty e = 2 -> c_start nu = true /\ c_start nv = true /\ is_dev_ev eu = false /\ is_dev_ev ev_ = true /\ icorr ev_ = idx eu /\ 0 < icorr ev_) /\
     (g_ty e = 3 -> c_start nu = false /\ c_start nv = true /\ is_dev_ev eu = true /\ is_dev_ev ev_ = true /\ stream eu = stream ev_ /\
                    forall k, In k clipped -> analysed k = true -> is_dev_ev k = true -> stream k = stream eu -> cat k <> "cuda_sync"%string ->
                              ~ (ts eu < ts k < ts ev_)) /\
@@ -50,6 +50,20 @@ Example C08_host_nonvacuous :
   encode_host [mkH 0 0 100 true false (-1); mkH 1 10 30 false false 0; mkH 2 12 20 true false 1; mkH 3 50 60 true false 0]
               [Enter 0; Enter 1; Enter 2; Exit 2; Exit 1; Enter 3; Exit 3; Exit 0] 0 =
   (true, [[0; 1; 2; 1; 12; 0; 0]; [2; 0; 3; 1; 30; 0; 0]; [2; 1; 2; 0; 8; 0; 2]; [3; 0; 0; 0; 40; 0; 0]; [3; 1; 3; 0; 10; 0; 3]]).
+Proof. vm_compute. reflexivity. Qed.
+
+(* device side, by proof about the loop of _construct_graph_from_kernels: for EVERY causally consistent processing sequence (any number
+   of streams, activities and synchronisation records; with and without zero-weight launch edges) every emitted edge points forward in
+   time, is non-negative, weighs the time difference or zero as its type prescribes, and joins start / end nodes as its type demands *)
+Theorem C08_dev_edges_forward_typed : forall zw rows, dwf [] rows = true -> Forall DGood (fst (drun zw [] rows)).
+Proof. exact dev_edges_good. Qed.
+Print Assumptions C08_dev_edges_forward_typed.
+
+(* non-vacuity: launch [0,2) -> kernel [5,9) on stream 7 (queue 1 -> 0), a second kernel [9,12) launched at 3 while the first was queued
+   (queue 2), a device synchronisation returning at 14 *)
+Example C08_dev_nonvacuous :
+  encode_dev false [DK 2 7 5 9 1 0 true 1 0; DK 4 7 9 12 3 3 true 2 0; DC 5 14 true] =
+  (true, true, [[1; 1; 2; 1; 5; 2; -2]; [2; 0; 4; 1; 0; 3; 2]; [2; 1; 2; 0; 4; 0; 2]; [4; 0; 5; 0; 0; 4; -2]; [4; 1; 4; 0; 3; 0; 4]]).
 Proof. vm_compute. reflexivity. Qed.
 
 (* non-vacuity: launch call [0,2) launches kernel [5,9); a second kernel [9,12) on the stream; sync call [10,14) waits *)
